@@ -31,6 +31,8 @@ class Model:
     def __init__(self, prog: Optional[Program] = None) -> None:
         self.prog = prog or program()
         self.norm = Norm(self.prog)
+        # validators stay visible as calls (C12 needs to see them); norm.strip_validators() removes them where only the value matters
+        self.norm.opaque_funcs |= {fq for fq, f in self.prog.functions.items() if f.name.startswith("type_check")}
 
     # ------------------------------------------------------------- anchors
     @property
